@@ -222,7 +222,8 @@ def eval_group(env, group, tier):
                 fn = shown.upper() if c['style'] == 2 else shown
                 cols.append(fn + o_ + ('*' if real == 'count' else arg) + c_)
             q = ', '.join(cols) + ' from .' + wclause + ' into list'
-            o = env.run([q], cwd=root)
+            # thousands of buffered rows take the subject seconds (quadratic in the debug build): a long horizon, not a verdict
+            o = env.run([q], cwd=root, timeout=240.0 if group['tree'].startswith('pow') else 10.0)
             case = {'tree': group['tree'], 'arg': arg, 'where': wname, 'funcs': c['funcs'], 'style': c['style'], 'query': q}
             res = {'case': case, 'nt': len(set(vals)) >= 2, 'layer': 'n=%d' % len(names)}
             rows = o.rows(len(cols))
@@ -249,7 +250,7 @@ def eval_group(env, group, tier):
             if not bad and len(names) in (1, 9):
                 # the one row carries exactly the selected columns in every format (observed through `into json`)
                 import json as _json
-                oj = env.run([q.replace(' into list', ' into json')], cwd=root)
+                oj = env.run([q.replace(' into list', ' into json')], cwd=root, timeout=240.0 if group['tree'].startswith('pow') else 10.0)
                 try:
                     objs = _json.loads(oj.out.decode('utf-8', 'replace'))
                     okj = isinstance(objs, list) and len(objs) == 1 and len(objs[0]) == len(set(cols)) and sorted(objs[0].values()) == sorted(row)
